@@ -29,12 +29,18 @@ def dicts_digest(wires):
     return f'{len(wires)}:' + hashlib.sha1('|'.join(wires).encode()).hexdigest()[:16]
 
 
-def write_file(msgs, codec, cfg, blocked, use_with=False, many=False):
+def write_file(msgs, codec, cfg, blocked, use_with=False, many=False, positional=False):
     from cardutil import mciipm
     f = KeepOpen()
     kw = dict(encoding=codec, blocked=blocked)
     if cfg is not None:
         kw['iso_config'] = cfg
+    if positional:
+        w = mciipm.IpmWriter(f, *([codec] + ([cfg] if cfg is not None else [])), blocked=blocked)
+        for m in msgs:
+            w.write(dict(m))
+        w.close()
+        return f.getvalue()
     if use_with:
         with mciipm.IpmWriter(f, **kw) as w:
             if many:
@@ -60,13 +66,24 @@ def impl_eval(case):
     exps = [iu.dict_unwire(w) for w in case['exps']]
     try:
         data = write_file(msgs, codec, None if case['cfg'] == 'pkg' and case.get('defaultcfg') else cfg, blocked,
-                          use_with=case.get('with', False), many=case.get('many', False))
+                          use_with=case.get('with', False), many=case.get('many', False),
+                          positional=case.get('positional', False))
     except Exception as ex:  # noqa
         return {'obs': ['write:' + iu.exc_kind(ex), 'n/a'], 'violation': f'writing well-formed messages failed: {ex!r}'}
     kw = dict(encoding=codec, blocked=blocked)
     if not (case['cfg'] == 'pkg' and case.get('defaultcfg')):
         kw['iso_config'] = cfg
-    got, exc = read_all(mciipm.IpmReader(io.BytesIO(data), **kw))
+    if case.get('positional'):
+        # the documented parameter order (file, encoding, iso_config), given by position
+        pos = [codec] + ([kw['iso_config']] if 'iso_config' in kw else [])
+        try:
+            reader = mciipm.IpmReader(io.BytesIO(data), *pos, blocked=blocked)
+        except TypeError as ex:
+            return {'obs': ['construct:TypeError', 'n/a'],
+                    'violation': f'IpmReader(file, encoding, iso_config, blocked=...) refused its documented arguments: {ex}'}
+        got, exc = read_all(reader)
+    else:
+        got, exc = read_all(mciipm.IpmReader(io.BytesIO(data), **kw))
     why = None
     if exc is not None:
         why = f'reading the written file ended with {render_end(exc)}'
@@ -239,7 +256,7 @@ def explore(run, tier):
                     i += 1
                     if cfgkind == 'gen' and n > 60:
                         continue
-                    cfg = 'pkg' if cfgkind == 'pkg' else iu.gen_config(rng)
+                    cfg = 'pkg' if cfgkind == 'pkg' else iu.gen_config(rng, with_decimal=(i % 3 == 0))
                     pairs = []
                     while len(pairs) < n:
                         m, e = iu.gen_message(rng, pkg if cfg == 'pkg' else cfg, codec)
@@ -250,7 +267,8 @@ def explore(run, tier):
                             pass
                     cases.append({'k': 'file', 'cfg': cfg, 'codec': codec, 'b': b,
                                   'msgs': [iu.dict_wire(m) for m, _ in pairs], 'exps': [iu.dict_wire(e) for _, e in pairs],
-                                  'with': i % 2 == 0, 'many': i % 4 == 0, 'defaultcfg': cfg == 'pkg' and i % 3 == 0})
+                                  'with': i % 2 == 0, 'many': i % 4 == 0, 'defaultcfg': cfg == 'pkg' and i % 3 == 0,
+                                  'positional': i % 5 == 0})
     # messages mixing PDSxxxx keys with a directly supplied later carrier element
     for codec in codecs3:
         for b in (0, 1):
